@@ -470,7 +470,10 @@ def circuit_method(I, recv, o, name, args, kwargs, e, fr):
         I.mutate(o, "measure_all", e)
         o.term = t_seq(o.term, ("measure",))
         return Const(None)
-    if name in ("measure", "barrier", "append", "reset", "delay", "add_register", "remove_final_measurements", "clear", "assign_parameters"):
+    if name in ("measure", "barrier", "append", "reset", "delay", "add_register", "remove_final_measurements", "clear", "assign_parameters", "add_bits"):
+        ip = kwargs.get("inplace")
+        if name in ("remove_final_measurements", "assign_parameters") and isinstance(ip, Const) and ip.v is False:
+            return I.new_circuit(t_seq(o.term, ("unknown", f"circuit method {name}(inplace=False) at {where(fr, e)}")), site=where(fr, e), width=o.width)
         I.mutate(o, name, e)
         o.term = t_seq(o.term, ("unknown", f"circuit method {name} at {where(fr, e)}"))
         return Const(None)
